@@ -178,6 +178,9 @@ def apply_op(st, kind, op, why, shapes):
         if kind == "positive":
             return
         ev = []
+        bumped = kind == "mixed"
+        if bumped:
+            st.rbm_ph.aux_bias.data.add_(0.375)  # a user-assigned value: a refused call must leave even this alone
         before = [h for (_, _, h, _) in allp()]
         env = Owned(None, mode="observe")
         rs = torch.get_rng_state().clone()
@@ -193,6 +196,8 @@ def apply_op(st, kind, op, why, shapes):
             why.append((f"nobases:refused-with-{type(e).__name__}-not-ValueError", dict(error=str(e))))
         if ev or before != [h for (_, _, h, _) in allp()] or env.calls or not torch.equal(rs, torch.get_rng_state()):
             why.append(("nobases:something-changed-before-refusal", dict(events=ev, random_calls=env.calls[:3])))
+        if bumped:
+            st.rbm_ph.aux_bias.data.zero_()
     elif op in ("mutate-am", "mutate-ph"):
         net = "rbm_am" if op == "mutate-am" else "rbm_ph"
         if net not in st.networks:
